@@ -34,6 +34,10 @@ func main() {
 		c.Family("merkle.subsets", merkleSubsetCount(maxN), famMerkleSubsets(c, maxN))
 		c.Exhaustive(fmt.Sprintf("every matched subset of every block size 1..%d (family merkle.subsets)", maxN))
 
+		c.Family("cfindex", c.N(84, 4000), famCfIndex)
+		c.Require("cfindex.blocks_checked", 2000)
+		c.Require("cfindex.reorgs", 20)
+
 		c.Require("calibrate.siphash", 64)
 		c.Require("calibrate.bip158", 2)
 		c.Require("calibrate.pmt", 128)
